@@ -36,6 +36,13 @@ pub trait Kind<'a>: ValueInput<'a, Token: Tok, Span: SpanObs> + Sized + 'a {
     fn base(&self) -> (usize, usize) {
         (0, 1)
     }
+    /// a parser of chumsky::text, where the input is text (&str, &[u8]) and the error type is Rich
+    fn text<E: ErrTy<'a, Self>>(_name: &str, _arg: &str) -> Result<P<'a, Self, E>, String> {
+        Err(format!("input kind {} is not text", Self::NAME))
+    }
+    fn tpadded<E: ErrTy<'a, Self>>(_p: P<'a, Self, E>) -> Result<P<'a, Self, E>, String> {
+        Err(format!("input kind {} is not text", Self::NAME))
+    }
     /// any_ref() / select_ref!: only inputs that can lend their tokens (BorrowInput)
     fn any_ref<E: ErrTy<'a, Self>>() -> Result<P<'a, Self, E>, String> {
         Err(format!("input kind {} cannot lend tokens", Self::NAME))
@@ -62,14 +69,78 @@ macro_rules! by_ref_impl {
 }
 pub(crate) use by_ref_impl;
 
+/// The text parsers need `E::Error: LabelError<I, TextExpected<I>>`, which the generic builder cannot name for an
+/// arbitrary input kind; they are built for the concrete (kind, Rich) pair and handed back under the generic
+/// type, which is the same type whenever the names agree (checked by the caller).
+fn same_type<A, Bt>(a: A) -> Bt {
+    assert_eq!(std::mem::size_of::<A>(), std::mem::size_of::<Bt>());
+    assert_eq!(std::any::type_name::<A>().len(), std::any::type_name::<Bt>().len());
+    let b = unsafe { std::mem::transmute_copy::<A, Bt>(&a) };
+    std::mem::forget(a);
+    b
+}
+
+macro_rules! text_impl {
+    ($I:ty, $T:ty, $kwseq:expr, $nl:expr) => {
+        fn text<E: ErrTy<'a, Self>>(name: &str, arg: &str) -> Result<P<'a, Self, E>, String> {
+            use chumsky::text;
+            if E::NAME != "rich" {
+                return Err("text parsers are instantiated for Rich errors".into());
+            }
+            type R<'a> = chumsky::error::Rich<'a, $T>;
+            let sl = |s: <$I as chumsky::input::SliceInput<'a>>::Slice| slice_val(s.as_ptr() as usize, s.len());
+            let radix = || arg.parse::<u32>().map_err(|e| format!("radix {arg}: {e}"));
+            let p: P<'a, $I, R<'a>> = match name {
+                "ws" => text::whitespace::<$I, X<R<'a>>>().to_slice().map(sl).boxed(),
+                "iws" => text::inline_whitespace::<$I, X<R<'a>>>().to_slice().map(sl).boxed(),
+                "nl" => $nl?,
+                "digits" => text::digits::<$I, X<R<'a>>>(radix()?).to_slice().map(sl).boxed(),
+                "int" => text::int::<$I, X<R<'a>>>(radix()?).map(sl).boxed(),
+                "aident" => text::ascii::ident::<$I, X<R<'a>>>().map(sl).boxed(),
+                "uident" => text::unicode::ident::<$I, X<R<'a>>>().map(sl).boxed(),
+                "akw" => text::ascii::keyword::<$I, _, X<R<'a>>>($kwseq(arg)).map(sl).boxed(),
+                "ukw" => text::unicode::keyword::<$I, _, X<R<'a>>>($kwseq(arg)).map(sl).boxed(),
+                n => return Err(format!("unknown text parser {n}")),
+            };
+            Ok(same_type::<P<'a, $I, R<'a>>, P<'a, Self, E>>(p))
+        }
+        fn tpadded<E: ErrTy<'a, Self>>(p: P<'a, Self, E>) -> Result<P<'a, Self, E>, String> {
+            Ok(p.padded().boxed())
+        }
+    };
+}
+
 fn slice_val(ptr: usize, len: usize) -> Val {
     let (base, sz) = BASE.with(|b| *b.borrow());
     let off = (ptr.wrapping_sub(base)) / sz;
     Val::Sl(off, off + len)
 }
 
+fn nl_str<'a>() -> Result<P<'a, &'a str, chumsky::error::Rich<'a, char>>, String> {
+    Ok(chumsky::text::newline::<&'a str, X<chumsky::error::Rich<'a, char>>>().to_slice().map(|s: &'a str| slice_val(s.as_ptr() as usize, s.len())).boxed())
+}
+/// a keyword for byte inputs: comparable with the matched byte slice and printable as an expectation
+#[derive(Clone)]
+pub struct KwB(&'static [u8]);
+impl<'x> PartialEq<&'x [u8]> for KwB {
+    fn eq(&self, o: &&'x [u8]) -> bool {
+        self.0 == *o
+    }
+}
+impl<'x> From<KwB> for chumsky::error::RichPattern<'x, u8> {
+    fn from(k: KwB) -> Self {
+        chumsky::error::RichPattern::Identifier(String::from_utf8_lossy(k.0).into_owned())
+    }
+}
+fn kw_str(arg: &str) -> &'static str {
+    Box::leak(arg.to_string().into_boxed_str())
+}
+fn kw_bytes(arg: &str) -> KwB {
+    KwB(Box::leak(arg.as_bytes().to_vec().into_boxed_slice()))
+}
 impl<'a> Kind<'a> for &'a str {
     const NAME: &'static str = "str";
+    text_impl!(&'a str, char, kw_str, nl_str());
     fn base(&self) -> (usize, usize) {
         (self.as_ptr() as usize, 1)
     }
@@ -110,6 +181,8 @@ impl<'a, const N: usize> Kind<'a> for &'a [char; N] {
 impl<'a> Kind<'a> for &'a [u8] {
     const NAME: &'static str = "bytes";
     by_ref_impl!();
+    // text::newline() requires `&str: OrderedSeq<Token>` and so does not exist for byte inputs
+    text_impl!(&'a [u8], u8, kw_bytes, Err::<P<'a, &'a [u8], chumsky::error::Rich<'a, u8>>, String>("text::newline is not available on byte inputs".into()));
     fn base(&self) -> (usize, usize) {
         (self.as_ptr() as usize, 1)
     }
@@ -661,6 +734,8 @@ where
             chumsky::primitive::map_ctx::<_, _, I, X<E>, X<E>, _>(move |c: &Val| map_fn(&f, c.clone()), build(a, env)?).boxed()
         }
         G::WithState(a) => build(a, env)?.with_state(St::default()).boxed(),
+        G::Text(name, arg) => I::text::<E>(name, arg)?,
+        G::TPadded(a) => I::tpadded::<E>(build(a, env)?)?,
         G::Nested(a, b) => crate::tree::nested(build(a, env)?, crate::tree::build_b(b, env)?),
         G::Tree => return Err("a group selector yields an input, not a value: only as the `b` of nested".into()),
         G::Pratt(atom, ops, table) => {
